@@ -10,6 +10,7 @@ mod twins;
 mod fit;
 mod fault;
 mod stats;
+mod robust;
 
 use common::Out;
 use std::io::Write;
@@ -59,13 +60,17 @@ fn main() {
         "fit" => fit::stream(&mut out, seed, thorough),
         "fault" => fault::stream(&mut out, seed, thorough),
         "stats" => stats::stream(&mut out, seed, thorough),
+        "robust" => robust::stream(&mut out, seed, thorough),
         _ => {
             eprintln!("unknown stream {}", stream);
             std::process::exit(2);
         }
     }
+    // watchdog threads of hung cases may still be running: leave without joining them
+    let code = 0;
     match outp {
         Some(p) => std::fs::write(p, out.buf.as_bytes()).expect("write"),
         None => std::io::stdout().write_all(out.buf.as_bytes()).expect("write"),
     }
+    std::process::exit(code);
 }
